@@ -293,19 +293,25 @@ def run(rep, repo, tier):
         cls == "quantized_sigmoid" and not kw.get("use_real_sigmoid")):
       points.append((cls, kw, "smooth"))
       points.append((cls, kw, "real"))
+      # ... also when it is selected after the quantizer was constructed
+      points.append((cls, kw, "smooth/late"))
   for cls, kw, mode in points:
+    late = mode.endswith("/late")
+    mode = mode.split("/")[0]
     r = reference(cls, kw, mode)
     if r is None:
       continue
     ref, step, codes = r
     cfg = "%s(%s)" % (cls, oracle.show_kwargs(kw))
     if mode != "hard":
-      cfg += " after set_internal_sigmoid(%r)" % mode
+      cfg += (" then set_internal_sigmoid(%r)" if late else
+              " after set_internal_sigmoid(%r)") % mode
     unit = "%s::%s.__call__" % (mod.relpath, cls)
     rep.unit(unit)
     try:
-      b = quant.build(repo, cls, kw, setup=None if mode == "hard" else
-                      quant.sigmoid_mode(mode))
+      hook = None if mode == "hard" else quant.sigmoid_mode(mode)
+      b = quant.build(repo, cls, kw, setup=None if late else hook,
+                      after_construction=hook if late else None)
     except ConfigRejected:
       continue
     n += 1
